@@ -36,11 +36,13 @@ func init() {
 		Rule: "universe = 14 base patches (expression, statement with context elisions, function declaration with elided parameters/body, imports incl. metavariable-named, two dependent changes, composite literal with elisions, for-header elision, repeated metavariable, pure addition / pure deletion between context elisions, identifier metavariables) x every single application and every pair (thorough: every triple for the short bases) of each layout transformation at every position: '#' line at each gap, blank line at each gap, naming the change, renaming each metavariable to each of 5 names that also occur in the target files, regrouping / ';'-joining / reordering metavariable declarations, re-wrapping at each comma, re-indenting, context line <-> identical -/+ pair x 4 target files. " +
 			"Differential oracle: the variant's result is canonically identical to the base patch's (and fails iff it fails); descriptions on stderr are exactly the '#' lines directly above the header. non-trivial = the base patch rewrites the file",
 		Assumptions: []string{"a transformation is only generated where it is meaning-preserving by the property's wording (metavariables that name an import are not renamed; new names do not occur literally in the pattern)"},
-		Bounds:      func(tier string) map[string]any { return map[string]any{"bases": len(c13Bases()), "max_steps": c13MaxSteps(tier)} },
-		NewCase:     func() any { return &C13Case{} },
-		Gen:         c13Gen,
-		Setup:       cliSetup,
-		Run:         c13Run,
+		Bounds: func(tier string) map[string]any {
+			return map[string]any{"bases": len(c13Bases()), "max_steps": c13MaxSteps(tier)}
+		},
+		NewCase: func() any { return &C13Case{} },
+		Gen:     c13Gen,
+		Setup:   cliSetup,
+		Run:     c13Run,
 	})
 }
 
